@@ -191,26 +191,32 @@ def _strip_prefixed_short_names(xml: str) -> str:
     return xml
 
 
-def container_spec(case: Dict[str, Any], cname: str = "C", prefix: str = "") -> Dict[str, Any]:
-    """emit.container() input for one hierarchy.  Layer short names / IDs are prefix + type letter + index."""
+TOKEN = "\u00a7\u00a7"  # placeholder for the batch prefix inside cached layer XML (never occurs otherwise)
+_LAYER_CACHE: Dict[Any, Tuple[str, str]] = {}
+
+
+def _layer_specs(case: Dict[str, Any], prefix: str) -> List[Tuple[Any, Dict[str, Any]]]:
+    """[(cache key or None, layer spec)] of one hierarchy; names/IDs are prefix + type letter + index."""
     types: List[str] = case["types"]
     lnames = layer_names(case, prefix)
     cats: List[str] = case.get("cats", ALL_CATS)
     nms: List[str] = case["names"]
     lists = case.get("excl_lists", EXCL_LISTS)
-    layers: List[Dict[str, Any]] = []
+    out: List[Tuple[Any, Dict[str, Any]]] = []
     need_lib = any(k == 2 for row in case["place"] for k in row)
+    common = (tuple(nms), tuple(cats), tuple(lists))
     if need_lib:
         lib = {"type": ESD, "name": prefix + LIB}
         lib.update(_objects(prefix + LIB, 0xEE, ESD, nms, [1] * len(nms), [c for c in REFERABLE_CATS if c in cats],
                             is_lib=True))
-        layers.append(lib)
+        out.append((("LIB",) + common, lib))
     for i, t in enumerate(types):
         l: Dict[str, Any] = {"type": t, "name": lnames[i]}
         l.update(_objects(lnames[i], i, t, nms, case["place"][i], cats, lib_name=prefix + LIB))
         if t == PROT:
             l["comparam_spec"] = COMPARAM_SPEC
         prs = []
+        pkey = []
         for p in case["parents"][i]:
             banned = [nms[n] for c, q, n in case.get("excl", []) if c == i and q == p]
             ni: Dict[str, List[str]] = {}
@@ -219,20 +225,68 @@ def container_spec(case: Dict[str, Any], cname: str = "C", prefix: str = "") -> 
                 if sn:
                     ni[lst] = sn
             prs.append({"layer": lnames[p], "not_inherited": ni})
+            pkey.append((p, types[p], tuple(banned)))
         if prs:
             l["parents"] = prs
-        layers.append(l)
-    return {"name": cname, "layers": layers}
+        out.append(((t, i, tuple(case["place"][i]), tuple(pkey)) + common, l))
+    return out
 
 
-def database_files(cases: List[Dict[str, Any]]) -> Dict[str, str]:
+def container_spec(case: Dict[str, Any], cname: str = "C", prefix: str = "") -> Dict[str, Any]:
+    """emit.container() input for one hierarchy."""
+    return {"name": cname, "layers": [l for _, l in _layer_specs(case, prefix)]}
+
+
+def container_xml(case: Dict[str, Any], cname: str, prefix: str) -> str:
+    """The same document emit.container(container_spec(...)) produces, assembled from per-layer XML (emit.layer)
+    that is cached across cases: most layers of neighbouring cases are identical up to the batch prefix."""
+    from odxmodel import emit
+    keys = [k for k, _ in _layer_specs_keys_only(case)]
+    missing = [k for k in keys if k not in _LAYER_CACHE]
+    if missing:
+        specs = _layer_specs(case, TOKEN)
+        layer_types = {l["name"]: l["type"] for _, l in specs}
+        for k, l in specs:
+            if k not in _LAYER_CACHE:
+                if len(_LAYER_CACHE) > 4000:
+                    _LAYER_CACHE.clear()
+                _LAYER_CACHE[k] = (l["type"], _strip_prefixed_short_names(emit.layer(l, layer_types)))
+    groups: Dict[str, List[str]] = {}
+    for k in keys:
+        t, xml = _LAYER_CACHE[k]
+        groups.setdefault(emit.LAYER_TAG[t][0], []).append(xml.replace(TOKEN, prefix))
+    inner = names(cname)
+    for tag in ("PROTOCOLS", "FUNCTIONAL-GROUPS", "ECU-SHARED-DATAS", "BASE-VARIANTS", "ECU-VARIANTS"):
+        if tag in groups:
+            inner += X(tag, *groups[tag])
+    return ('<?xml version="1.0" encoding="UTF-8" standalone="no" ?>\n<ODX MODEL-VERSION="2.2.0" ' + emit.XSI + ">" +
+            X("DIAG-LAYER-CONTAINER", inner, ID=cname) + "</ODX>")
+
+
+def _layer_specs_keys_only(case: Dict[str, Any]) -> List[Tuple[Any, None]]:
+    """Cache keys of the layers of a case without building the specs."""
+    types: List[str] = case["types"]
+    nms: List[str] = case["names"]
+    common = (tuple(nms), tuple(case.get("cats", ALL_CATS)), tuple(case.get("excl_lists", EXCL_LISTS)))
+    out: List[Tuple[Any, None]] = []
+    if any(k == 2 for row in case["place"] for k in row):
+        out.append((("LIB",) + common, None))
+    for i, t in enumerate(types):
+        pkey = tuple((p, types[p], tuple(nms[n] for c, q, n in case.get("excl", []) if c == i and q == p)) for p in case["parents"][i])
+        out.append(((t, i, tuple(case["place"][i]), pkey) + common, None))
+    return out
+
+
+def database_files(cases: List[Dict[str, Any]], cached: bool = True) -> Dict[str, str]:
     """{file name: XML} for a database that holds each case in its own container (C0, C1, ...) with disjoint
     layer names (prefix k<i>_), plus the one comparam spec every PROTOCOL layer refers to."""
     from odxmodel import emit
     out: Dict[str, str] = {}
     for k, case in enumerate(cases):
         prefix = f"k{k}_" if len(cases) > 1 else ""
-        spec = container_spec(case, cname=f"C{k}", prefix=prefix)
-        out[f"C{k}.odx-d"] = _strip_prefixed_short_names(emit.container(spec))
+        if cached:
+            out[f"C{k}.odx-d"] = container_xml(case, f"C{k}", prefix)
+        else:
+            out[f"C{k}.odx-d"] = _strip_prefixed_short_names(emit.container(container_spec(case, cname=f"C{k}", prefix=prefix)))
     out[COMPARAM_SPEC + ".odx-c"] = emit.comparam_spec({"name": COMPARAM_SPEC, "prot_stacks": []})
     return out
